@@ -727,7 +727,28 @@ func (c *cluster) restartHost(i int, r *vh.Rand) {
 		return
 	}
 	// the clients keep using the host while its shard is stopped and the host is
-	// closed: requests in flight end Terminated, later ones are refused
+	// closed: requests in flight end Terminated, later ones are refused. A few
+	// proposals and reads are started right before, so that some are in flight.
+	var bw sync.WaitGroup
+	for k := 0; k < 4; k++ {
+		bw.Add(1)
+		key, val, write := uint64(1+r.Intn(c.cfg.keys)), r.U64()>>1|1, k%2 == 0
+		go func() {
+			defer bw.Done()
+			defer func() {
+				if p := recover(); p != nil {
+					c.note("client_panic")
+				}
+			}()
+			if write {
+				c.doWrite(0, i, nh, key, val, true, 300*time.Millisecond, nil, nil)
+			} else {
+				c.doRead(0, i, nh, key, true, 300*time.Millisecond)
+			}
+		}()
+	}
+	defer bw.Wait()
+	time.Sleep(time.Duration(r.Intn(1500)) * time.Microsecond)
 	if r.Bool() {
 		_ = nh.StopShard(shardID)
 		time.Sleep(time.Duration(r.Intn(20)) * time.Millisecond)
@@ -1020,14 +1041,17 @@ type histResult struct {
 	finalOK bool
 	notes   map[string]int
 	net     [4]int64
+	timing  string // wall time of the phases (start, history, settle, close)
 }
 
 // runHistory runs one cluster history and returns what was recorded.
 func runHistory(cfg histCfg) (*histResult, error) {
+	t0 := time.Now()
 	c, err := startCluster(cfg)
 	if err != nil {
 		return nil, err
 	}
+	t1 := time.Now()
 	stop := make(chan struct{})
 	var wg, nwg sync.WaitGroup
 	for i := 0; i < cfg.clients; i++ {
@@ -1043,6 +1067,7 @@ func runHistory(cfg histCfg) (*histResult, error) {
 	c.net.heal()
 	close(stop)
 	wg.Wait()
+	t2 := time.Now()
 	// messages delayed by the network are delivered within 30 ms of the heal
 	time.Sleep(40 * time.Millisecond)
 	// settle: one more write, then a linearizable read on every host that runs a
@@ -1151,12 +1176,14 @@ func runHistory(cfg histCfg) (*histResult, error) {
 	if settled && !converged {
 		c.violation("the replicas of the final membership did not reach the same number of applied updates within 5 s after every one of them served a linearizable read: %v", counts)
 	}
+	t3 := time.Now()
 	for i := range c.hosts {
 		if nh := c.get(i); nh != nil {
 			nh.Close()
 		}
 	}
 	c.net.close()
+	res.timing = fmt.Sprintf("start=%.1fs,history=%.1fs,settle=%.1fs,close=%.1fs", t1.Sub(t0).Seconds(), t2.Sub(t1).Seconds(), t3.Sub(t2).Seconds(), time.Since(t3).Seconds())
 	res.net = [4]int64{c.net.sent, c.net.dropped, c.net.delayed, c.net.delivered}
 
 	// the log: union of the apply streams by index; every replica must have seen
